@@ -8,6 +8,6 @@ r = verus_unit.run_unit(repo, sys.argv[1], seed=int(sys.argv[2]) if len(sys.argv
 print("status:", r.status, "|", r.reason[:3000])
 print("verified", r.verified, "errors", r.errors, "smt_ms", r.smt_ms, "wall", round(r.wall_s, 1), "gen", r.gen_path)
 for f in r.failures:
-    print("FAIL", f["obligation"], "gen:%d" % f["gen_line"]); print(f["rendered"][:1500])
+    print("FAIL", f.get("obligation", f["function"] + "::" + f["kind"]), "gen:%d" % f["gen_line"]); print(f["rendered"][:1500])
 for f in r.functions:
     if not f["success"]: print("  fn not verified:", f["name"])
